@@ -5,7 +5,7 @@ use crate::ops::{History, Op, ITER_FLAVOURS};
 use crate::util::{show_bytes, J};
 use abyssiniandb::filedb::{CheckFileDbMap, FileDb, FileDbMap};
 use abyssiniandb::verif_hooks as hooks;
-use abyssiniandb::{DbMap, DbXxx, DbXxxBase};
+use abyssiniandb::{DbMap, DbXxx, DbXxxBase, DbXxxObjectSafe};
 use std::cell::RefCell;
 use std::collections::{BTreeMap, BTreeSet, HashMap};
 use std::panic::{catch_unwind, AssertUnwindSafe};
@@ -279,6 +279,8 @@ pub struct Session<K: Kt> {
     pub last_decoded: Option<(Image, Decoded)>,
     /// peak number of live entries (for the weak C06 bound)
     pub peak_live: usize,
+    /// an iterator kept alive across calls (Op::IterStep): (iterator, keys yielded, still comparable with the model)
+    pub live_iter: Option<(abyssiniandb::DbXxxIter<K>, std::collections::HashSet<Vec<u8>>, bool)>,
 }
 
 fn io_name<T>(r: &std::io::Result<T>) -> String {
@@ -290,9 +292,14 @@ fn io_name<T>(r: &std::io::Result<T>) -> String {
 
 impl<K: Kt> Session<K> {
     pub fn create(dir: &Path, name: &str, cfg: &Cfg) -> Result<Session<K>, String> {
-        let mut s = Session { dir: dir.to_path_buf(), name: name.to_string(), db: None, map: None, extra: vec![], model: Model::new(), n_buckets: 0, budget: STEP_BUDGET_BASE, updates_since_sync: 0, last_decoded: None, peak_live: 0 };
+        let mut s = Session::attach(dir, name, Model::new(), 0);
         s.open(cfg)?;
         Ok(s)
+    }
+
+    /// a closed session on an existing directory, with the model it is expected to hold
+    pub fn attach(dir: &Path, name: &str, model: Model, peak_live: usize) -> Session<K> {
+        Session { dir: dir.to_path_buf(), name: name.to_string(), db: None, map: None, extra: vec![], model, n_buckets: 0, budget: STEP_BUDGET_BASE, updates_since_sync: 0, last_decoded: None, peak_live, live_iter: None }
     }
 
     /// open (or reopen) the database and the map; returns panic/err text on failure
@@ -327,6 +334,7 @@ impl<K: Kt> Session<K> {
     }
 
     pub fn close(&mut self) {
+        self.live_iter = None;
         self.extra.clear();
         self.map = None;
         self.db = None;
@@ -363,6 +371,11 @@ impl<K: Kt> Session<K> {
 
     pub fn apply(&mut self, at: usize, op: &Op, keys: &[Vec<u8>], mon: &Mon, ctx: &mut Ctx, rng_bits: u64) -> Result<(), Finding> {
         ctx.count(&format!("call.{}", op.kind_name()), 1);
+        if op.is_update() {
+            // an iterator must not outlive a modification of its map: nothing is promised for it then (a stale
+            // iterator may even follow a dangling offset past the end of a file, which extends that file)
+            self.live_iter = None;
+        }
         match op {
             Op::Put(k, vs) => {
                 let key = &keys[*k];
@@ -374,7 +387,13 @@ impl<K: Kt> Session<K> {
                 } else {
                     ctx.count("put.insert", 1)
                 }
-                self.basic(at, &format!("put({}, len {})", show_bytes(key), v.len()), O_C01, (), |m| m.put(&key[..], &v))?;
+                // every fifth call goes through the object-safe variant of the API
+                if rng_bits % 5 == 1 {
+                    let kk = K::from(key.clone());
+                    self.basic(at, &format!("put_kt({}, len {})", show_bytes(key), v.len()), O_C01, (), |m| m.put_kt(&kk, &v))?;
+                } else {
+                    self.basic(at, &format!("put({}, len {})", show_bytes(key), v.len()), O_C01, (), |m| m.put(&key[..], &v))?;
+                }
                 self.model.insert(key.clone(), v.clone());
                 self.peak_live = self.peak_live.max(self.model.len());
                 self.updates_since_sync += 1;
@@ -391,7 +410,12 @@ impl<K: Kt> Session<K> {
                 let key = &keys[*k];
                 let e = self.model.get(key).cloned();
                 ctx.count(if e.is_some() { "delete.present" } else { "delete.absent" }, 1);
-                self.basic(at, &format!("delete({})", show_bytes(key)), O_C01, e, |m| m.delete(&key[..]))?;
+                if rng_bits % 5 == 1 {
+                    let kk = K::from(&key[..]);
+                    self.basic(at, &format!("del_kt({})", show_bytes(key)), O_C01, e, |m| m.del_kt(&kk))?;
+                } else {
+                    self.basic(at, &format!("delete({})", show_bytes(key)), O_C01, e, |m| m.delete(&key[..]))?;
+                }
                 self.model.remove(key);
                 self.updates_since_sync += 1;
             }
@@ -399,12 +423,22 @@ impl<K: Kt> Session<K> {
                 let key = &keys[*k];
                 let e = self.model.get(key).cloned();
                 ctx.count(if e.is_some() { "get.present" } else { "get.absent" }, 1);
-                self.basic(at, &format!("get({})", show_bytes(key)), O_C01, e, |m| m.get(&key[..]))?;
+                if rng_bits % 5 == 1 {
+                    let kk = K::from(&key[..]);
+                    self.basic(at, &format!("get_kt({})", show_bytes(key)), O_C01, e, |m| m.get_kt(&kk))?;
+                } else {
+                    self.basic(at, &format!("get({})", show_bytes(key)), O_C01, e, |m| m.get(&key[..]))?;
+                }
             }
             Op::Has(k) => {
                 let key = &keys[*k];
                 let e = self.model.contains_key(key);
-                self.basic(at, &format!("includes_key({})", show_bytes(key)), O_C01, e, |m| m.includes_key(&key[..]))?;
+                if rng_bits % 5 == 1 {
+                    let kk = K::from(&key[..]);
+                    self.basic(at, &format!("includes_key_kt({})", show_bytes(key)), O_C01, e, |m| m.includes_key_kt(&kk))?;
+                } else {
+                    self.basic(at, &format!("includes_key({})", show_bytes(key)), O_C01, e, |m| m.includes_key(&key[..]))?;
+                }
             }
             Op::Len => {
                 let e = self.model.len() as u64;
@@ -543,8 +577,25 @@ impl<K: Kt> Session<K> {
                 }
             }
             Op::Iter(f, n) => {
-                let r = self.iterate(at, *f, *n, false, ctx);
+                // every second traversal op is interleaved with other read-only calls between its steps
+                let r = self.iterate(at, *f, *n, at % 2 == 1, ctx);
                 ctx.observe(r)?;
+            }
+            Op::IterStep(n) => {
+                let r = self.iter_step(at, *n, ctx);
+                ctx.observe(r)?;
+            }
+            Op::PutIterSelf => {
+                // put_from_iter fed by an iterator over (a clone of) the same map; every value is replaced by one of
+                // the same length, so no record moves and the traversal stays well defined
+                let src = self.map.as_ref().expect("open").clone();
+                self.basic(at, "put_from_iter(iterator over the same map)", O_C14, (), |m| m.put_from_iter(src.iter().map(|(k, v)| (k, v.iter().rev().copied().collect::<Vec<u8>>()))))?;
+                for v in self.model.values_mut() {
+                    v.reverse();
+                }
+                self.updates_since_sync += 1;
+                let ks: Vec<usize> = (0..keys.len().min(24)).collect();
+                self.verify_keys(at, &ks, keys, O_C14, "after put_from_iter over the same map")?;
             }
             Op::Stats => {
                 // executed for its side effects / termination; figures are compared at sync points
@@ -685,7 +736,11 @@ impl<K: Kt> Session<K> {
                             }
                         }
                         2 => {
-                            let _ = other.includes_key(&b"certainly absent key \xff\x00"[..]).map_err(|e| e.to_string())?;
+                            if i % 8 == 2 {
+                                other.read_fill_buffer().map_err(|e| e.to_string())?;
+                            } else {
+                                let _ = other.includes_key(&b"certainly absent key \xff\x00"[..]).map_err(|e| e.to_string())?;
+                            }
                         }
                         _ => {
                             if let Some(it2) = second.as_mut() {
@@ -784,6 +839,70 @@ impl<K: Kt> Session<K> {
             Guard::Ok(Err(m)) => Err(finding(O_C04, "iteration", at, format!("{m} [table {} buckets]", self.n_buckets))),
             Guard::Hang(m) => Err(finding(O_C04, "hang", at, format!("{name} traversal: {m} [table {} buckets]", self.n_buckets))),
             Guard::Panic(m) => Err(finding(O_C04, "panic", at, format!("{name} traversal panicked: {m} [table {} buckets]", self.n_buckets))),
+        }
+    }
+
+    /// advance the iterator that is kept alive across calls by `n` steps (created on demand). While the map has
+    /// not been modified since its creation the yielded items are compared with the model.
+    pub fn iter_step(&mut self, at: usize, n: usize, ctx: &mut Ctx) -> Result<(), Finding> {
+        if self.live_iter.is_none() {
+            let map = self.map.as_ref().expect("open");
+            match guarded(self.budget, || map.iter()) {
+                Guard::Ok(it) => self.live_iter = Some((it, Default::default(), true)),
+                Guard::Hang(m) | Guard::Panic(m) => return Err(finding(O_C04, "panic", at, format!("iter(): {m}"))),
+            }
+            ctx.count("live_iterators_created", 1);
+        }
+        let budget = self.budget;
+        let model = &self.model;
+        let li = self.live_iter.as_mut().unwrap();
+        let valid = li.2;
+        let r = guarded(budget, || -> Result<bool, String> {
+            for _ in 0..n {
+                match li.0.next() {
+                    None => {
+                        if valid && li.1.len() != model.len() {
+                            return Err(format!("an iterator advanced in several calls (other read-only calls in between) ended after {} of {} items", li.1.len(), model.len()));
+                        }
+                        return Ok(true);
+                    }
+                    Some((k, v)) => {
+                        if valid {
+                            let kb = k.as_bytes().to_vec();
+                            if model.get(&kb) != Some(&v) {
+                                return Err(format!("an iterator advanced in several calls yields key {} with a value that is not live", show_bytes(&kb)));
+                            }
+                            if !li.1.insert(kb) {
+                                return Err("an iterator advanced in several calls yields a key twice".to_string());
+                            }
+                        }
+                    }
+                }
+            }
+            Ok(false)
+        });
+        ctx.count("live_iterator_steps", n as u64);
+        match r {
+            Guard::Ok(Ok(done)) => {
+                if done {
+                    self.live_iter = None;
+                }
+                Ok(())
+            }
+            Guard::Ok(Err(m)) => {
+                self.live_iter = None;
+                Err(finding(O_C04, "iteration", at, m))
+            }
+            Guard::Hang(m) | Guard::Panic(m) => {
+                self.live_iter = None;
+                if valid {
+                    Err(finding(O_C04, "panic", at, format!("a step of an iterator kept across read-only calls: {m}")))
+                } else {
+                    // the map was modified under the iterator: nothing is promised for it
+                    ctx.count("live_iterator_dropped_after_modification", 1);
+                    Ok(())
+                }
+            }
         }
     }
 
